@@ -707,5 +707,7 @@ def run(ctx):
     rule_nbr_use(ctx, tu)
     rule_axis_table(ctx, py, tu)
     rule_g2g(ctx, py)
+    from .. import lints
+    lints.run(ctx, "C15", ctx.py, ["rdgridspace", "coarsegrain"])
     ctx.assume("symmetry of the neighbour relation as a theorem and equality of grid / graph trajectories are not "
                "decided; the rate law coincidence of grid and graph is C01.SIB")
